@@ -2,9 +2,10 @@
   E11 (part) — model of schema enforcement: `SchemaType::matches` (src/schema/mod.rs:64),
   `ValidationEngine::validate_tuple/validate_batch` (src/schema/validator.rs:166/139),
   `KnowledgeGraph::validate_tuples` (storage_engine/mod.rs:2996: no schema ⇒ accepted),
-  `register_or_update_schema` (:2934 — existing data is NOT validated), and the insert paths of
-  `Handler::query_program`: `Statement::Insert` (handler.rs:2598-2686: validate, then insert, all or
-  nothing), `Statement::Update` (:2990-3075: delete/insert per binding, NO validation),
+  `register_or_update_schema` (:2934 — after the repair: existing data must pass `validate_existing_data`),
+  and the insert paths of `Handler::query_program`: `Statement::Insert` (handler.rs:2598-2686: validate,
+  then insert, all or nothing), `Statement::Update` (:2990-…: after the repair every tuple to be inserted
+  is validated before any delete/insert; then delete/insert per binding),
   `Statement::Fact` (:2687-2722: request-local fact, NO validation, visible to the request's queries).
   Spec `conforms` is written from docs/spec/types.md ("Type in Schemas", "Timestamps", "Type Coercion").
 -/
@@ -105,7 +106,10 @@ def insertSet : List Tuple → List Tuple → List Tuple × Nat
     else let (st', n) := insertSet (st ++ [t]) ts; (st', n + 1)
 
 def SState.step (s : SState) : SOp → SState × SOut
-  | .decl cols => ({ s with schema := some cols }, .ok)
+  | .decl cols =>
+    -- `register_or_update_schema`: the tuples already stored must pass `validate_existing_data`
+    if !validateBatch (some cols) s.stored then (s, .rejected)
+    else ({ s with schema := some cols }, .ok)
   | .insert ts =>
     let ts := ts.filter (fun t => !t.isEmpty)              -- empty tuples are skipped (handler.rs:2606)
     if !validateBatch s.schema ts then (s, .rejected)
@@ -113,6 +117,8 @@ def SState.step (s : SState) : SOp → SState × SOut
   | .upd new =>
     -- one binding per stored tuple: each is deleted, `new` is inserted (once; later attempts are duplicates)
     if s.stored.isEmpty then (s, .updated 0 0)
+    -- every tuple the update would insert is validated before any data is touched
+    else if !validateBatch s.schema [new] then (s, .rejected)
     else ({ s with stored := [new] }, .updated s.stored.length 1)
   | .fact t => (s, .rows (insertSet s.stored [t]).1)
   | .validate ts => (s, if validateBatch s.schema ts then .ok else .rejected)
@@ -130,19 +136,6 @@ def SState.inv (s : SState) : Bool :=
   match s.schema with
   | none => true
   | some cols => s.stored.all (conformsTuple cols)
-
-/-- the operations that keep the invariant: a declaration over conforming data, an update whose new
-    tuple conforms (or that binds nothing, or no schema yet); everything else always does. -/
-def SState.opSafe (s : SState) : SOp → Bool
-  | .decl cols => s.stored.all (conformsTuple cols)
-  | .upd new => match s.schema with
-    | none => true
-    | some cols => s.stored.isEmpty || conformsTuple cols new
-  | _ => true
-
-def SState.runSafe : SState → List SOp → Bool
-  | _, [] => true
-  | s, op :: ops => s.opSafe op && SState.runSafe (s.step op).1 ops
 
 /-! ### wire codec for schema kinds -/
 
